@@ -136,6 +136,10 @@ func run(c *C) {
 		runUtf8(c)
 	case "C30":
 		runEqual(c)
+	case "C17":
+		runLazy(c)
+	case "C09":
+		runUnknown(c)
 	case "C11", "C12", "C15", "C28":
 		runOps(c)
 	default:
